@@ -209,6 +209,53 @@ def result_value(r):
     return list(r)
 
 
+# A list whose tracts carry *different* settings: parse_tracts() without keywords must give every tract exactly what the tract
+# parsed on its own (same settings) gives - nothing may leak from one list element to the next.
+HET_DESCS = ['Lot 1, NE, SW', 'N/2 of Lot 2, NE/4', 'N/2NE/4, Lot 3', 'ALL']
+HET_CFGS = ['', 'clean_qq', 'suppress_lot_divs', 'break_halves,qq_depth_min.3', 'qq_depth.1', 'clean_qq.False,qq_depth_max.1']
+
+
+def het_case(acc, ci, cj, via):
+    import itertools as it
+    cfgs = [HET_CFGS[ci], HET_CFGS[cj], HET_CFGS[ci]]
+    key = f"het|{via}|{cfgs[0]}|{cfgs[1]}"
+    case = {'het': True, 'ci': ci, 'cj': cj, 'via': via}
+    descs = HET_DESCS[:3]
+    try:
+        if via == 'tractlist':
+            ts = [_p.Tract(dsc, trs=f"154n97w{n + 1:02d}", config=c or None) for n, (dsc, c) in enumerate(zip(descs, cfgs))]
+            tl = _p.TractList(ts)
+            tl.parse_tracts()
+        else:
+            d = _p.PLSSDesc('T154N-R97W ' + ', '.join(f"Sec {n + 1}: {dsc}" for n, dsc in enumerate(descs)).replace(', Sec', '; Sec'))
+            ts = list(d.tracts)
+            for t, c in zip(ts, cfgs):
+                t.config = c
+            if via == 'plss.parse_tracts':
+                d.parse_tracts()
+            else:
+                d.tracts.parse_tracts()
+        got = [(t.pp_desc, tuple(t.lots), tuple(t.qqs)) for t in ts]
+        want = []
+        for t, c in zip(ts, cfgs):
+            f = _p.Tract(t.desc, trs=t.trs, config=c or None)
+            f.parse()
+            want.append((f.pp_desc, tuple(f.lots), tuple(f.qqs)))
+    except Exception as ex:  # noqa
+        acc.case(key, 'EXC')
+        acc.violation('exception', f"C14:exception:het:{via}:{type(ex).__name__}", case, got=f"{type(ex).__name__}: {ex}")
+        return
+    acc.case(key, repr(got))
+    acc.transitions += 1
+    if got != want:
+        bad = [i for i in range(len(got)) if got[i] != want[i]]
+        acc.violation('list_element_not_independent', f"C14:list_element_not_independent:{via}:{cfgs[0]}|{cfgs[1]}", case,
+                      got=[got[i] for i in bad], exp=[want[i] for i in bad],
+                      note=f"tract(s) {bad} of the list differ from the same tract parsed on its own with its own settings")
+    else:
+        acc.guard('het_checked')
+
+
 def units(tier):
     # one unit per (seed, first operation): the BFS below the first operation runs with its own seen-set; the global number of
     # distinct states is the number of distinct snapshots over all units (runner: distinct_outcomes)
@@ -216,6 +263,7 @@ def units(tier):
     for n in range(len(SEEDS)):
         for name in ops_for_kind(SEEDS[n][0]):
             us.append({'seed': n, 'first': name})
+    us.append({'het': True})
     return us
 
 
@@ -309,6 +357,12 @@ def check_transition(acc, n, hist, name, before, obj0):
 
 def run_unit(unit, tier):
     acc = Acc()
+    if unit.get('het'):
+        for ci in range(len(HET_CFGS)):
+            for cj in range(len(HET_CFGS)):
+                for via in ('tractlist', 'plss.parse_tracts', 'plss.tracts.parse_tracts'):
+                    het_case(acc, ci, cj, via)
+        return acc.result()
     n = unit['seed']
     depth = DEPTH[tier]
     root = make_seed(n)
@@ -350,6 +404,9 @@ def run_unit(unit, tier):
 
 def replay(case):
     acc = Acc()
+    if case.get('het'):
+        het_case(acc, case['ci'], case['cj'], case['via'])
+        return acc.viol
     n = case['seed']
     hist = tuple(case['history'])
     ops = ops_for(n)
@@ -366,7 +423,7 @@ def replay(case):
 def guards(info):
     g = info['guards']
     out = []
-    for name in ('nocommit_checked', 'committed_checked'):
+    for name in ('nocommit_checked', 'committed_checked', 'het_checked'):
         if not g.get(name):
             out.append(f"never observed: {name}")
     if g.get('more_than_one_state', 0) < len(SEEDS):
